@@ -148,6 +148,15 @@ def _run_path(E, c, fnode, cls, params, canary):
         if "step" in c.tags:
             step = B.extract_step(fnode)
             names = names + [step[0]]
+        step2 = None
+        s2_emit = s2_exit = False
+        if "step2" in c.tags or "step2-init" in c.tags:
+            # parser generators (builtins_.extract_step2): "step2" = one pass through the `while True:` body,
+            # "step2-init" = the statements before the loop.  Extra names in `params` are the declared step state.
+            step2 = B.extract_step2(fnode)
+            if "step2" in c.tags:
+                names = names + [k for k in params if k not in names]
+        E.step2_yields = step2.yields if (step2 is not None and "step2" in c.tags) else None
         for nm in names:
             if nm in params:
                 env[nm] = make_param(E, nm, params[nm], c)
@@ -179,9 +188,27 @@ def _run_path(E, c, fnode, cls, params, canary):
         exc = None
         result = None
         try:
-            if B.is_generator(fnode) and step is None:
+            if B.is_generator(fnode) and step is None and step2 is None:
                 raise Unsupported("generator function %s needs a step extraction" % c.qual)
-            if step is not None:
+            if step2 is not None and "step2" not in c.tags:
+                E.exec_block(step2.prologue)          # "step2-init": post-conditions speak about L_<local>
+            elif step2 is not None:
+                try:
+                    try:
+                        E.exec_block(step2.body)       # falls off the end: next pass at once, nothing emitted
+                    except _Cont:
+                        pass                           # `continue` without a yield: same
+                    except _Brk:
+                        s2_exit = True                 # `break` without a yield: the epilogue runs in this pass
+                        try:
+                            E.exec_block(step2.epilogue)
+                        except _Ret:
+                            pass                       # trailing `return`: the generator ends
+                except B.StepYield as sy:
+                    result = sy.val
+                    s2_emit = True
+                    s2_exit = s2_exit or sy.then != "loop"
+            elif step is not None:
                 try:
                     E.exec_block(step[1])
                     result = E.eval(step[2]) if step[2] is not None else None     # the value yielded next
@@ -207,6 +234,13 @@ def _run_path(E, c, fnode, cls, params, canary):
                 env["L_" + k_] = v_          # final value of a local, for clauses guarded by the path they need
         E.frame.env = env
         env["result"] = result
+        if step2 is not None and "step2" in c.tags:
+            env["step_emit"] = s2_emit      # a value was yielded (the generator is suspended)
+            env["step_exit"] = s2_exit      # the step loop was left (the next resume does not start a pass)
+            if "emits" in c.tags and outcome == "return" and not canary:
+                E.oblige("post", z3.BoolVal(s2_emit and not s2_exit),
+                         "every pass of the step emits a value and loops (tag 'emits': next() == one step)",
+                         assume_after=False)
         if outcome == "return":
             if canary:
                 E.oblige("canary", z3.BoolVal(False), "ensures False (must fail)", assume_after=False)
